@@ -2120,3 +2120,88 @@ func ruleCRASH10(c *Ctx) {
 		c.unres(rule, "internal/ast/diagnostics", "", "only %d ErrLogger call sites found in internal/ast", n)
 	}
 }
+
+// ---- CRASH-11: the recursive macro expansion is guarded ----
+//
+// MacroRule.NFACons expands the macro's expression, which expands the macros it references: a
+// reference cycle that reaches it recurses until the stack overflows (no diagnostic, exit 2). The
+// in-expansion flag must be set before and cleared after the recursive expansion and a re-entry
+// must be reported - or NFACons must not recurse at all. (WF-1 demands the same flag for C17; seed
+// C12-F removed it as "redundant" next to a declaration-time search that misses some cycles.)
+func ruleCRASH11(c *Ctx) {
+	const rule = "CRASH-11"
+	p := c.Prog
+	pk, fd := p.FuncDecl("internal/ast", "MacroRule.NFACons")
+	if fd == nil {
+		c.unres(rule, "ast.MacroRule.NFACons", "", "function not found")
+		return
+	}
+	info := pk.TypesInfo
+	var rec *ast.CallExpr
+	ast.Inspect(fd.Body, func(n ast.Node) bool {
+		if call, ok := n.(*ast.CallExpr); ok {
+			if sel, ok := call.Fun.(*ast.SelectorExpr); ok && sel.Sel.Name == "NFACons" {
+				rec = call
+			}
+		}
+		return true
+	})
+	if rec == nil {
+		c.ok(rule, "ast.MacroRule.NFACons/recursion-guard", p.Pos(fd.Pos()), "NFACons does not expand other nodes recursively")
+		return
+	}
+	// a boolean field of the macro: set true before the recursive call, false after it, and tested on entry
+	var flag *types.Var
+	var set, clr token.Pos
+	ast.Inspect(fd.Body, func(n ast.Node) bool {
+		as, ok := n.(*ast.AssignStmt)
+		if !ok || len(as.Lhs) != 1 || len(as.Rhs) != 1 {
+			return true
+		}
+		fv, _ := selField(info, as.Lhs[0])
+		if fv == nil || !isBool(fv.Type()) || !typeIs(info.TypeOf(as.Lhs[0].(*ast.SelectorExpr).X), "internal/ast", "MacroRule") {
+			return true
+		}
+		switch exprString(as.Rhs[0]) {
+		case "true":
+			if as.Pos() < rec.Pos() {
+				flag, set = fv, as.Pos()
+			}
+		case "false":
+			if as.Pos() > rec.End() {
+				clr = as.Pos()
+			}
+		}
+		return true
+	})
+	tested := false
+	if flag != nil {
+		par := parents(fd)
+		ast.Inspect(fd.Body, func(n ast.Node) bool {
+			call, ok := n.(*ast.CallExpr)
+			if !ok || !(isErrLoggerMethod(calleeFunc(info, call)) || isPanicCall(info, call)) {
+				return true
+			}
+			for _, fct := range pathConds(info, par, call) {
+				if fv, _ := selField(info, fct.e); fv == flag && !fct.neg && isErrLoggerMethod(calleeFunc(info, call)) {
+					tested = true
+				}
+			}
+			return true
+		})
+		// the re-entry branch must not reach the recursive call
+		ast.Inspect(fd.Body, func(n ast.Node) bool {
+			ifs, ok := n.(*ast.IfStmt)
+			if !ok {
+				return true
+			}
+			if fv, _ := selField(info, ifs.Cond); fv == flag && !stmtsTerminate(info, ifs.Body.List) {
+				tested = false
+			}
+			return true
+		})
+	}
+	c.check(flag != nil && set.IsValid() && clr.IsValid() && tested, rule, "ast.MacroRule.NFACons/recursion-guard", p.Pos(fd.Pos()),
+		"the recursive expansion runs between `flag = true` and `flag = false`, and entering with the flag set logs an error and returns: a reference cycle cannot recurse for ever",
+		"the recursive expansion of a macro is not protected by an in-expansion flag that is tested on entry (with a diagnostic), set before and cleared after the expansion: a reference cycle that reaches NFACons overflows the stack (no diagnostic, exit 2)")
+}
